@@ -480,3 +480,60 @@ _base3 = scenarios
 
 def scenarios():
     return _base3() + [revoke(k) for k in ('uid', 'key', 'subkey')] + [bind(k) for k in ('subkey-binding[signing subkey]', 'subkey-binding[encryption subkey]', 'primary-key-binding')]
+
+
+def signature_new(with_time):
+    """PGPSignature.new: the empty v4 signature every signing operation starts from"""
+    label = 'C02/PGPSignature.new[%s]' % ('creation time given' if with_time else 'creation time now')
+    SP = 'pgpy.packet.fields.SubPackets'
+    PKT = 'pgpy.packet.packets.SignatureV4'
+
+    def gen(repo):
+        r = scn.Run(repo, SIG, 'new', label)
+        ex, st = r.ex, r.st
+        r.hook(SIG, '__call__', lambda ex, st, c, a: [(st, E.VObj(SIG, 'sig'))])
+        r.hook(PKT, '__call__', lambda ex, st, c, a: [(st, E.VObj(PKT, 'pkt'))])
+        r.set('pkt', 'header', E.VObj('pgpy.packet.types.VersionedHeader', 'hdr'))
+        r.set('pkt', 'subpackets', E.VObj(SP, 'subp'))
+
+        def addnew_kw(ex, st, o, a, kws):
+            st.ghost['added'] = st.ghost.get('added', ()) + ((a, kws),)
+            return [(st, E.VNone())]
+        addnew_kw.wants_kws = True
+        r.hook(SP, 'addnew', scn.method_hook(addnew_kw))
+        NOW = E.VExt('datetime.now(utc)', ())
+        ex.hooks[('ext', 'datetime.now')] = lambda ex, st, o, a: [(st, NOW)]
+        T, P, H = z3.IntVal(0x13), z3.IntVal(22), z3.IntVal(8)          # a member of each enumeration (the setters convert to the enum)
+        SIGNER = E.VStr(z=z3.Const('SIGNER_KEY_ID', B))
+        GIVEN = E.VExt('given-time', ())
+        args = [E.VInt(T, enum='pgpy.constants.SignatureType'), E.VInt(P, enum='pgpy.constants.PubKeyAlgorithm'), E.VInt(H, enum='pgpy.constants.HashAlgorithm'), SIGNER]
+        for pi, (s, v) in enumerate(r.call(E.VClass(SIG), args + ([GIVEN] if with_time else []))):
+            if isinstance(v, E.Raise):
+                r.oblige(s, 'safety(%s)/p%d' % (v.exc.split(':')[0], pi), z3.BoolVal(False), v.where)
+                continue
+            r.oblige(s, 'a-new-signature-holding-a-new-v4-packet/p%d' % pi,
+                     z3.BoolVal(isinstance(v, E.VObj) and v.ref == 'sig' and isinstance(s.heap.get(('sig', '_signature')), E.VObj) and s.heap[('sig', '_signature')].ref == 'pkt'))
+            g = lambda f: s.heap.get(('pkt', f))
+            r.oblige(s, 'tag-2-version-4/p%d' % pi, z3.And(ex.as_int(s.heap.get(('hdr', '_tag'))) == 2, ex.as_int(s.heap.get(('hdr', '_version'))) == 4)
+                     if isinstance(s.heap.get(('hdr', '_tag')), E.VInt) and isinstance(s.heap.get(('hdr', '_version')), E.VInt) else z3.BoolVal(False))
+            r.oblige(s, 'type-and-algorithms-as-given/p%d' % pi,
+                     z3.And(ex.as_int(g('_sigtype')) == T, ex.as_int(g('_pubalg')) == P, ex.as_int(g('_halg')) == H)
+                     if all(isinstance(g(f), E.VInt) for f in ('_sigtype', '_pubalg', '_halg')) else z3.BoolVal(False))
+            added = s.ghost.get('added', ())
+            names = [a[0].s for a, kws in added]
+            r.oblige(s, 'exactly:creation-time(hashed)-and-issuer-key-id/p%d' % pi, z3.BoolVal(names == ['CreationTime', 'Issuer']))
+            if names == ['CreationTime', 'Issuer']:
+                ct, iss = added[0][1], added[1][1]
+                want = GIVEN if with_time else NOW
+                r.oblige(s, 'creation-time-is-hashed-and-is-%s/p%d' % ('the-given-instant' if with_time else 'the-current-instant-in-utc', pi),
+                         z3.BoolVal(isinstance(ct.get('hashed'), E.VBool) and z3.is_true(ct['hashed'].z) and ct.get('created') is want))
+                r.oblige(s, 'issuer-is-the-given-key-id/p%d' % pi, z3.BoolVal(iss.get('_issuer') is SIGNER))
+        return r.result()
+    return Scenario(label, SIG + '.new', gen, props=('C02', 'C16', 'C18'))
+
+
+_base_scn_new = scenarios
+
+
+def scenarios():
+    return _base_scn_new() + [signature_new(True), signature_new(False)]
